@@ -98,33 +98,46 @@ def _pose(B, ref, t, q):
     return qb[:3], np.eye(3)
 
 
-def tracked_angles(B, sol, k):
+def tracked_angles(B, sol, k, base=None):
     """Accumulated revolute angles at stored step k, computed by the harness
-    from the trajectory (unwrapped principal angles)."""
+    from the trajectory (unwrapped principal angles).  The joint frames are
+    the body-fixed ones of the *plan* (its initial configuration); ``base`` is
+    the tracked angle at the first state of ``sol`` (default: angle0, for runs
+    that start at the plan's own initial configuration)."""
+    from ..scenes import body_pose
+
     res = {}
     sc = B.scene
     t = np.asarray(sol.t)
     q = np.asarray(sol.q)
+
+    def plan_A(ref_):
+        if ref_ == "origin":
+            return np.eye(3)
+        kind, i = ref_
+        if kind == "frame":
+            return B.frame_motions[i].A(sc.get("t0", 0.0))
+        return body_pose(sc["bodies"][i])[1]
+
     for j, jt in enumerate(sc["joints"]):
         if jt["type"] != "revolute":
             continue
         AJ = rot.quat_to_mat(jt["pJ"]) if jt.get("pJ") is not None else np.eye(3)
-        _, A1p = _pose(B, jt["a"], t[0], q[0])
-        _, A2p = _pose(B, jt["b"], t[0], q[0])
-        K1, K2 = A1p.T @ AJ, A2p.T @ AJ
+        K1, K2 = plan_A(jt["a"]).T @ AJ, plan_A(jt["b"]).T @ AJ
         c = jt["axis"]
         a, b = np.roll([0, 1, 2], -c)[1:]
-        acc, prev = 0.0, 0.0
+        acc, prev = 0.0, None
         for i in range(0, k + 1):
             _, A1 = _pose(B, jt["a"], t[i], q[i])
             _, A2 = _pose(B, jt["b"], t[i], q[i])
             J1, J2 = A1 @ K1, A2 @ K2
             phi = np.arctan2(J2[:, a] @ J1[:, b], J2[:, a] @ J1[:, a])
-            d = phi - prev
-            d = (d + np.pi) % (2 * np.pi) - np.pi
-            acc += d
+            if prev is not None:
+                d = phi - prev
+                acc += (d + np.pi) % (2 * np.pi) - np.pi
             prev = phi
-        res[j] = jt.get("angle0", 0.0) + acc
+        start = jt.get("angle0", 0.0) if base is None else base[j]
+        res[j] = start + acc
     return res
 
 
